@@ -63,6 +63,7 @@ class C08World(C01World):
         self.lock_writer: Any = None
         self.fence_saw: Dict[str, Any] = {}
         self.overwrites: List[str] = []
+        self.ptr_fault_fired = False
         self.validated: Dict[str, str] = {}
         self.cas_log: List[Dict[str, Any]] = []
         w = self
@@ -87,6 +88,15 @@ class C08World(C01World):
         self._prev: Dict[int, Any] = {}
 
         def gate(req):
+            if (self.cfg.get("ptr_fault") and req.op == "PUT" and req.key.endswith(HINT_NAME)
+                    and root_actor(req.actor) == "A" and not self.ptr_fault_fired):
+                # deviation of the configuration: A's first pointer write is answered 503 and is NOT applied
+                from botocore.exceptions import ClientError
+
+                self.ptr_fault_fired = True
+                self.last_req[req.actor] = req.label() + " FAILED"
+                raise ClientError({"Error": {"Code": "ServiceUnavailable", "Message": "injected"},
+                                   "ResponseMetadata": {"HTTPStatusCode": 503}}, "PutObject")
             if req.op == "PUT" and req.key.endswith(HINT_NAME):
                 o = fake.objs.get(req.key)
                 self._prev[req.idx] = None if o is None else o.body.decode()
@@ -159,6 +169,7 @@ class C08World(C01World):
         self.lock_writer = None
         self.fence_saw = {}
         self.overwrites = []
+        self.ptr_fault_fired = False
         self.partitioned = set()
         if self.lock_variant == "cas":
             for i in range(len(self.ops)):
@@ -237,7 +248,9 @@ class C08World(C01World):
                 continue
             kind, val = outcome_of(a)
             if kind == "raise" and val not in ("ConcurrentModificationException", "TimeoutError"):
-                if a.name in self.partitioned and val == "ClientError":
+                if self.cfg.get("ptr_fault") and a.name == "A" and val == "AmbiguousCommitError":
+                    self.rep.add("commits_reported_ambiguous_after_the_injected_pointer_fault")
+                elif a.name in self.partitioned and val == "ClientError":
                     self.rep.add("commits_failed_by_the_injected_partition")  # the storage error itself surfaced: legitimate
                 else:
                     problems.append(f"{a.name} ended with {val} (neither success nor a retryable conflict)")
@@ -293,14 +306,15 @@ def configs(tier: str, seed: int) -> List[Dict[str, Any]]:
     out = []
 
     def add(ops, lock, bound=None, max_jumps=0, max_pauses=0, sample=False, max_exec=None, pause_only=None,
-            max_partitions=0, init=None):
+            max_partitions=0, init=None, ptr_fault=False):
         cid = f"{lock}/{'+'.join(ops)}/jumps{max_jumps}/pauses{max_pauses}" + (f"/b{bound}" if bound is not None else "") \
             + (f"/pause-only-{'+'.join(pause_only)}" if pause_only else "") \
-            + (f"/partitions{max_partitions}" if max_partitions else "") + (f"/{init}" if init else "")
+            + (f"/partitions{max_partitions}" if max_partitions else "") + (f"/{init}" if init else "") \
+            + ("/A-pointer-write-503" if ptr_fault else "")
         out.append({"id": cid, "backend": "s3", "topology": "separate", "clock": "TICK", "ops": list(ops), "lock": lock,
                     "bound": bound, "max_jumps": max_jumps, "max_pauses": max_pauses, "tier": tier, "seed": seed,
                     "sample": sample, "max_exec": max_exec, "pause_only": pause_only, "max_partitions": max_partitions,
-                    "init": init})
+                    "init": init, "ptr_fault": ptr_fault})
 
     # the last pair: two metadata-only commits (no new snapshot) derived from the same version
     pairs = [("append", "append"), ("append", "expire"), ("append", "delete_snap_first"),
@@ -308,6 +322,9 @@ def configs(tier: str, seed: int) -> List[Dict[str, Any]]:
     for lock in ("cas", "grantall"):
         for p in pairs:
             add(p, lock, sample=(lock == "cas" and p == pairs[0]))
+    # A's first pointer write is answered 503 without being applied, B commits at any point around it
+    add(("append", "append"), "grantall", ptr_fault=True)
+    add(("append", "append"), "cas", ptr_fault=True, bound=2 if tier == "quick" else None)
     # the pointer object is missing when the committers start (create-if-absent is the commit point)
     add(("append", "append"), "grantall", init="pointer_lost", bound=2 if tier == "quick" else 3)
     add(("append", "append"), "cas", init="pointer_lost", bound=2 if tier == "quick" else 3)
